@@ -79,6 +79,14 @@ class SimStream:
         if f and f[0] == 'read_str':
             self.fired = True
             return 'x' * max(n, 0)
+        if f and f[0] == 'read_none':
+            self.fired = True
+            return None
+        if f and f[0] in ('read_long', 'read_bytearray'):
+            chunk = self.data[self.pos:self.pos + n] if n >= 0 else self.data[self.pos:]
+            self.pos += len(chunk)
+            self.fired = True
+            return (chunk + b'\x00' * 8) if f[0] == 'read_long' else bytearray(chunk)
         chunk = self.data[self.pos:self.pos + n] if n >= 0 else self.data[self.pos:]
         if f and f[0] == 'eof':
             if f[1] < len(chunk):
@@ -289,7 +297,8 @@ def gen_op(rng, w):
         t = rng.choice(dense)
         M = w.objs[w.names[t][0]]['M']
         total = M.m * M.n * ITEM[M.tc][1]
-        f = rng.choice([None, None, ['eof', rng.randint(0, total)], ['eof', max(0, total - 1)], ['read_oserror'], ['read_str'], ['write_oserror']])
+        f = rng.choice([None, None, ['eof', rng.randint(0, total)], ['eof', max(0, total - 1)], ['read_oserror'], ['read_str'], ['write_oserror'],
+                        ['read_long'], ['read_bytearray'], ['read_none']])
         if rng.random() < 0.4:
             # write the owner out, change it, read it back into the same (possibly exported, possibly aliased) object
             return ['file', w.fresh(), t, f, 'self', rng.choice(['sim', 'readinto', 'bytesio'])]
@@ -720,7 +729,8 @@ def apply(op, w, stats, rngless=None):
         else:
             if not st.fired:
                 raise Mismatch('unexpected-exception', 'fault-free tofile/fromfile raised %s(%s)' % (type(exc).__name__, exc), op='file')
-            want = {'eof': EOFError, 'read_oserror': OSError, 'read_str': TypeError, 'write_oserror': OSError}[fault[0]]
+            want = {'eof': EOFError, 'read_oserror': OSError, 'read_str': TypeError, 'write_oserror': OSError,
+                    'read_long': EOFError, 'read_bytearray': TypeError, 'read_none': TypeError}[fault[0]]
             if not isinstance(exc, want):
                 raise Mismatch('exception-type', 'stream fault %s surfaced as %s(%s)' % (fault[0], type(exc).__name__, exc), op='file', fault=fault[0])
             if not same_dense(T, TM):
